@@ -273,6 +273,16 @@ class AppHost:
             receive = getattr(inst, "_receive", None)
             owner = getattr(receive, "__self__", None)
             if owner is None:
+                # the receive callable is a closure over the queue / channel
+                for cell in getattr(receive, "__closure__", None) or ():
+                    try:
+                        obj = cell.cell_contents
+                    except ValueError:
+                        continue
+                    if hasattr(obj, "get_nowait") or hasattr(obj, "_state"):
+                        owner = obj
+                        break
+            if owner is None:
                 continue
             try:
                 if peek:
